@@ -475,6 +475,8 @@ impl<'a> Run<'a> {
         let Ok(mut file) = fatal::create_file(&path) else {
             return
         };
+        #[cfg(feature = "verif-hooks")]
+        crate::verif::kill_point("store.status.created");
         if let Err(err) = StoredStatus::new(Time::now()).write(&mut file) {
             error!(
                 "Failed to write store status file {}: {}",
@@ -817,6 +819,8 @@ impl StoredPoint {
             header.update_status = UpdateStatus::LastAttempt(Time::now());
 
             drop(file);
+            #[cfg(feature = "verif-hooks")]
+            crate::verif::kill_point("store.point.last_attempt.before");
             let mut file = File::create(&path).map_err(|err| {
                 error!(
                     "Failed to update stored publication point at {}: \
@@ -827,6 +831,8 @@ impl StoredPoint {
 
             })?;
 
+            #[cfg(feature = "verif-hooks")]
+            crate::verif::kill_point("store.point.last_attempt.truncated");
             if let Err(err) = file.seek(SeekFrom::Start(0)) {
                 error!(
                     "Failed to update stored publication point at {}: \
@@ -887,6 +893,8 @@ impl StoredPoint {
         if let Some(path) = path.parent() {
             fatal::create_dir_all(path)?;
         }
+        #[cfg(feature = "verif-hooks")]
+        crate::verif::kill_point("store.point.create.before");
         let mut file = match File::create(&path) {
             Ok(file) => file,
             Err(err) => {
@@ -897,6 +905,8 @@ impl StoredPoint {
                 return Err(Failed)
             }
         };
+        #[cfg(feature = "verif-hooks")]
+        crate::verif::kill_point("store.point.create.truncated");
         let header = StoredPointHeader::new(
             manifest_uri.clone(), rpki_notify.cloned(),
         );
@@ -983,6 +993,11 @@ impl StoredPoint {
             );
             return Err(UpdateError::fatal())
         }
+        #[cfg(feature = "verif-hooks")]
+        {
+            let _ = io::Write::flush(&mut tmp_file);
+            crate::verif::kill_point("store.point.update.header_written");
+        }
         if let Err(err) = manifest.write(&mut tmp_file) {
             error!(
                 "Fatal: failed to write to file {}: {}",
@@ -1001,6 +1016,8 @@ impl StoredPoint {
             }
         };
         while let Some(object) = objects()? {
+            #[cfg(feature = "verif-hooks")]
+            crate::verif::kill_point("store.point.update.object");
             if let Err(err) = object.write(&mut tmp_file) {
                 error!(
                     "Fatal: failed to write to file {}: {}",
@@ -1022,6 +1039,8 @@ impl StoredPoint {
         // I think we need to drop `self.file` first so it gets closed and the
         // path unlocked on Windows?
         drop(self.file.take());
+        #[cfg(feature = "verif-hooks")]
+        crate::verif::kill_point("store.point.update.before_persist");
         match tmp_file.persist(&self.path) {
             Ok(file) => self.file = Some(BufReader::new(file)),
             Err(err) => {
@@ -1034,6 +1053,8 @@ impl StoredPoint {
             }
         }
         self.manifest = Some(manifest);
+        #[cfg(feature = "verif-hooks")]
+        crate::verif::kill_point("store.point.update.persisted");
 
         // Position the file at the first object. (The if will always be
         // true, so this is fine.)
@@ -1060,6 +1081,8 @@ impl StoredPoint {
         self.manifest = None;
         self.file = None;
 
+        #[cfg(feature = "verif-hooks")]
+        crate::verif::kill_point("store.point.reject.before");
         let mut file = match File::create(&self.path) {
             Ok(file) => file,
             Err(err) => {
@@ -1070,6 +1093,8 @@ impl StoredPoint {
                 return Err(Failed)
             }
         };
+        #[cfg(feature = "verif-hooks")]
+        crate::verif::kill_point("store.point.reject.truncated");
         if let Err(err) = self.header.write(&mut file) {
             error!(
                 "Failed to write stored publication point at {}: {}",
